@@ -9,7 +9,7 @@ from .harness import Harness, Stop
 EXIT_KINDS = ['maxfun', 'rho', 'small', 'slow', 'linalg', 'tr_increase', 'eval_error', 'false_success', 'max_restarts']
 
 
-def body(E, n, m, scaling, bounds, restarts, max_runs=3, use_old_rk=True, increase_npt=False, xr=False):
+def body(E, n, m, scaling, bounds, restarts, max_runs=3, use_old_rk=True, increase_npt=False, xr=False, noise=False):
     np = E.np
     x0 = E.own(E.vec('x0_', n), 'x0')
     rhobeg = E.real('rhobeg', npy=False)
@@ -31,6 +31,10 @@ def body(E, n, m, scaling, bounds, restarts, max_runs=3, use_old_rk=True, increa
               'restarts.hard.use_old_rk': use_old_rk}
         if increase_npt:
             up.update({'restarts.increase_npt': True, 'restarts.max_npt': n + 3})
+    if noise:
+        # noisy objective without noise-level estimates: the solver overrides one of its own options - not in the caller's dictionary
+        kwargs['objfun_has_noise'] = True
+        up['logging.save_diagnostic_info'] = False
     up_copy = dict(up)
     kwargs['user_params'] = up
     runs = []
@@ -215,6 +219,12 @@ def outer_harnesses(tier, seed, pid):
                               cfg=core.Cfg(qtimeout_ms=20000, uflin=True), functions=FUNCS, home='OUTER',
                               bounds="n=1, m=1, at most 3 runs, every run's objective NaN / +inf / finite",
                               assumptions=["solve_main replaced by its summary; objective values NaN, +inf or >= 0"], nproc=None, max_replays=3, wall_budget=300))
+    if pid == 'C19':
+        hs.append(Harness("outer[n=1,m=1,noisy-objective,user_params-given]", 'dfverif.outer', 'body',
+                          params=dict(n=1, m=1, scaling=False, bounds=False, restarts=False, max_runs=3, noise=True),
+                          cfg=core.Cfg(qtimeout_ms=20000, uflin=True), functions=FUNCS, home='OUTER',
+                          bounds="n=1, m=1, objfun_has_noise=True, a user_params dictionary without noise levels", assumptions=["solve_main replaced by its summary"],
+                          nproc=None, max_replays=3, wall_budget=200))
     for (n, m, scaling, bounds, restarts) in combos:
         variants = [(True, False)] if tier == 'quick' else [(True, False), (False, False), (True, True)]
         for (old_rk, inc) in (variants if restarts else [(True, False)]):
